@@ -169,3 +169,18 @@ Fixpoint pat_from (seed : N) (i : N) (len : nat) : bytes :=
   | S l => byte_of_N (seed * 7 + i * 13 + i / 251) :: pat_from seed (N.succ i) l
   end.
 Definition pat (seed off : N) (len : nat) : bytes := pat_from seed off len.
+
+Lemma dropN_length l n : length (dropN l n) = (length l - N.to_nat n)%nat.
+Proof. rewrite dropN_skipn. apply skipn_length. Qed.
+Lemma takeN_length l n : length (takeN l n) = Nat.min (N.to_nat n) (length l).
+Proof. rewrite takeN_firstn. apply firstn_length. Qed.
+Lemma takeN_app_le (a b : bytes) n : n <= lenN a -> takeN (a ++ b) n = takeN a n.
+Proof.
+  intro H. rewrite !takeN_firstn, firstn_app. unfold lenN in H.
+  replace (N.to_nat n - length a)%nat with 0%nat by lia. cbn [firstn]. apply app_nil_r.
+Qed.
+Lemma dropN_app_le (a b : bytes) n : n <= lenN a -> dropN (a ++ b) n = dropN a n ++ b.
+Proof.
+  intro H. rewrite !dropN_skipn, skipn_app. unfold lenN in H.
+  replace (N.to_nat n - length a)%nat with 0%nat by lia. reflexivity.
+Qed.
